@@ -24,6 +24,7 @@ import WntrModel.Lemmas.AmlRat
 import WntrModel.Lemmas.AmlInv
 import WntrModel.Lemmas.AmlStruct
 import WntrModel.Lemmas.AmlReal
+import WntrModel.Lemmas.AmlCsr
 import Mathlib.Analysis.Normed.Field.Lemmas
 
 namespace Wntr.Aml
@@ -382,5 +383,40 @@ example : HasDerivAt
     (exEnv.var 0) :=
   D_is_analytic_derivative_rational ratOps_lawful ratOps_pow exEnv 0 _ (by decide +kernel)
     (by simp only [denomOk, true_and]; decide +kernel)
+
+
+/-! ## 6. CSR rows -/
+
+/-- **csr_rows_partial (plain constraints; the conditional rows are NOT proved).** After `set_structure`:
+`evaluate` computes, for the `i`-th plain constraint in address order (`Constraint.index = i`,
+`set_structure_unique_indices`), that constraint's own function program on that constraint's own leaves;
+`evaluate_csr_jacobian` computes for row `i` that constraint's own Jacobian programs, one per referenced variable in
+address order, `col_ndx` holding those variables' `index` and `row_nnz` the prefix sums of the row lengths.
+Missing for the full statement: the same for `IfElseConstraint`s — the `condition_ndx` / `jac_ndx` strides of
+`findBranch` / `jacIfRows` are modelled (`Model/AmlModel.lean`) and compared with the C++ on every run, but no theorem
+relates them to the per-constraint programs. -/
+theorem csr_rows_partial {α : Type} (O : Ops α) (I : InfVals α) (e e' : Evaluator α)
+    (h : e.setStructure = some e') :
+    evalPlainRows O I e' e'.st.fnRpn 0 =
+      seqOpt (e.cons.map fun c => evalRpn O (leafValues O I e' c.leaves) c.fnRpn) ∧
+    jacPlainRows O I e' e'.cons.length 0 0 = jacRowsOf O I e' e.cons ∧
+    (∃ z, e'.st.colNdx = e.cons.flatMap (fun c => c.jacRpn.map fun p => varIndex e'.vars p.1) ++ z) ∧
+    (∃ y, e'.st.rowNnz = (0 :: sums 0 (e.cons.map (·.jacRpn.length))) ++ y) :=
+  setStructure_plain_rows O I e e' h
+
+/-- composition with `rpn_correct` and `reverseSd_is_derivative`: when a constraint's programs are the RPN of `fn` and of
+`reverse_sd()[v]`, and its leaves vector resolves to the environment (what `add_leaf` / `leaf_ndx_map` set up), its
+residual entry is `eval fn` and its Jacobian entry for `v` is `eval (D v fn)` -/
+theorem row_entries_are_eval_and_derivative {α : Type} [Field α] {O : Ops α} (L : LawfulOps O) (I : InfVals α)
+    (hI : InfLaws O I) (env : Env α) (vals : Nat → α) (ndx : TLeaf → Nat)
+    (hv : ∀ l, vals (ndx l) = leafVal O I env l)
+    (ops : OpList) (hwf : wellFormed ops = true) (hcons : consistent ops) (fn : Expr) (hden : denote ops = some fn)
+    (hdom : sdDomAll ops = true) (d : DerMap) (hsd : reverseSd ops = some d) (v : Nat) (s : SVal)
+    (hj : jacOf d v = some s) :
+    evalRpn O vals (toRpn ndx fn) = some (eval O env fn) ∧
+    evalRpn O vals (toRpn ndx s.toExpr) = some (eval O env (D v fn)) := by
+  refine ⟨rpn_correct O I hI env vals ndx hv fn, ?_⟩
+  rw [rpn_correct O I hI env vals ndx hv s.toExpr]
+  exact congrArg some (reverseSd_is_derivative L env ops hwf hcons fn hden hdom d hsd v s hj)
 
 end Wntr.Aml
